@@ -38,7 +38,7 @@ STRING_FEATS = ("as_str", "Debug", "Display", "IntoStr", "names", "from_str", "F
 @st.composite
 def cases(draw, tier="quick"):
     spec = draw(S.enum_specs(PROFILE))
-    base = draw(S.configs(spec, forbid=STRING_FEATS, p_on=0.25, split=False))
+    base = draw(S.configs(spec, forbid=STRING_FEATS, p_on=0.25, split=False, p_sorted=0.3))
     mods = draw(st.lists(st.sampled_from(range(len(VARIANTS))), min_size=2, max_size=4, unique=True))
     extra = draw(st.lists(st.text(max_size=8), max_size=6))
     return {"spec": spec, "base": base, "mods": sorted(mods), "extra": extra, "seed": draw(st.integers(0, 2 ** 31))}
